@@ -60,5 +60,13 @@ pub fn run() -> Vec<String> {
         ck("rfc3339 read", parse_rfc3339("1996-12-19T16:39:57-08:00") == Some((851042397, 0, -28800)) && parse_rfc3339("1985-04-12T23:20:50.52Z") == Some((482196050, 520_000_000, 0)));
         ck("rfc3339 read rejects", parse_rfc3339("1985-04-12T23:20:50").is_none() && parse_rfc3339("1985-02-30T00:00:00Z").is_none());
     }
+    {
+        use crate::props::c18::base64;
+        // RFC 4648 section 10 test vectors
+        for (i, o) in [("", ""), ("f", "Zg=="), ("fo", "Zm8="), ("foo", "Zm9v"), ("foob", "Zm9vYg=="), ("fooba", "Zm9vYmE="), ("foobar", "Zm9vYmFy")] {
+            ck(&format!("base64 {i:?}"), base64(i.as_bytes()) == o);
+        }
+        ck("base64 +/", base64(&[0xfb, 0xff, 0xbe]) == "+/++");
+    }
     errs
 }
